@@ -87,12 +87,12 @@ CHECKS = {
                 note='Trusted: kt/kt.py, kt/models_date.py (datetime/timedelta/relativedelta/rrule(DAILY) models, days-from-civil formula), z3. Outside: DATEDIF units M/Y/MD/YM/YD, YEARFRAC bases 0/1/4 '
                      '(third-party iteration/tables), NOW/TODAY, serial 60; DATE/EDATE/EOMONTH over ALL years at once (z3 answers unknown) - representative years instead.'),
     'C16': dict(engine='KT+XH', technique='kernel translation of the rounding kernels into z3 reals/ints (one query per function) + CrossHair symbolic execution of every math function with contract stubs for the C library',
-                text='Bounded symbolic model checking: ROUND/ROUNDUP/ROUNDDOWN/TRUNC for EVERY real number in -10^15..10^15 and every digit count -10..10, INT, EVEN, FLOOR (integers), MOD (integer dividends, 11 divisors) '
+                text='Bounded symbolic model checking: ROUND/ROUNDUP/ROUNDDOWN/TRUNC for EVERY real number in -10^15..10^15 and every digit count -10..10, INT, EVEN, FLOOR (integers), CEILING (integers, 9 significances), MOD (integer dividends, 11 divisors) '
                      'equal Excel\'s rounding direction on exact decimal arithmetic; every function of the statement returns a finite number or an Excel error for ALL real arguments when the C library is replaced by its '
                      'documented domain contract (raises / NaN / infinity outside the domain, arbitrary finite value inside), and calls the library function the statement prescribes with the prescribed arguments '
                      '(ATAN2(x,y)=atan2(y,x), LOG(n,b)).',
                 note='Trusted: kt/kt.py, kt/models_math.py (Decimal/round/localcontext/math.trunc|ceil|floor models), library contract table in props/c16.py (P3), CrossHair, z3; floats as exact reals. '
-                     'NOT applicable: agreement with correctly rounded IEEE-754 values to a few ulp (libm/numpy C code) and CEILING/FLOOR/TRUNC on fractional binary floats (binary rounding of products is not modelled); CEILING is not covered.'),
+                     'NOT applicable: agreement with correctly rounded IEEE-754 values to a few ulp (libm/numpy C code) and CEILING/FLOOR/TRUNC on fractional binary floats (binary rounding of products is not modelled).'),
     'C20': dict(engine='XH', technique='symbolic execution (CrossHair+z3) of NPV/XNPV/SLN with symbolic real cash flows on a concrete rate/date grid; PMT/PV with numpy_financial as an uninterpreted recording stub',
                 text='Bounded symbolic model checking: NPV for 6 rates x 1..5 cash flows (thorough 9 x 8) and XNPV for 5 rates x 3 date vectors equal sum c_i f_i within 1e-9 relative for ALL real cash flows '
                      '(linearity, rate-0 reduction); SLN * life = cost - salvage for all reals, #DIV/0! at life 0; PMT/PV hand exactly (rate, nper, pv|pmt, fv, timing) to the annuity routine.',
